@@ -374,13 +374,13 @@ def run_query(spec, hb, q, args, known):
         if bad:
             qr.verdict = 'INCONCLUSIVE'; qr.detail = 'functions without body (would be silently nondet): ' + ' '.join(sorted(set(bad))); return qr
         qr.n_props = len(results)
-        witness = None; cands = []; unwind_fail = []; reached = set()
+        witness = None; cands = []; unwind_fail = []; reached = set(); undecided = []
         all_reach = {r.get('description', '')[len('WITNESS reach: '):] for r in results if r.get('description', '').startswith('WITNESS reach: ')}
         for r in results:
             desc = r.get('description', '')
             if r['status'] == 'SUCCESS': continue
             if r['status'] not in ('FAILURE',):
-                qr.verdict = 'INCONCLUSIVE'; qr.detail = 'property %s status %s' % (r.get('property'), r['status']); return qr
+                undecided.append((r.get('property'), r['status'])); continue
             if desc.startswith('WITNESS reach: '):
                 reached.add(desc[len('WITNESS reach: '):]); continue
             if desc.startswith('WITNESS'):
@@ -396,12 +396,18 @@ def run_query(spec, hb, q, args, known):
             qr.verdict = 'INCONCLUSIVE'; qr.detail = 'functions without body (would be silently nondet): ' + ' '.join(sorted(set(bad))); return qr
         if unwind_fail:
             qr.verdict = 'INCONCLUSIVE'; qr.detail = 'unwinding assertion failed (bound too small): ' + ' '.join(unwind_fail[:5]); return qr
+        if undecided and not cands:
+            # cbmc leaves properties UNKNOWN once others have failed; without any failure that is an undecided query
+            qr.verdict = 'INCONCLUSIVE'; qr.detail = 'property %s status %s (%d undecided)' % (undecided[0][0], undecided[0][1], len(undecided)); return qr
+        if witness is None and cands:
+            witness = {'trace': []}; qr.detail = 'end witness undecided (other properties failed)'
+            no_witness_replay = True
         if witness is None:
             qr.verdict = 'INCONCLUSIVE'; qr.detail = 'vacuous: end-of-harness witness not reachable (assumptions unsatisfiable or harness never returns)'; return qr
         qr.witness_ok = True
         # ---- witness replay on the native build of the real code
         wvec = trace_vector(witness.get('trace', []))
-        if not args.no_native and not q.get('no_native'):
+        if not args.no_native and not q.get('no_native') and not locals().get('no_witness_replay'):
             code, out = hb.replay(q['entry'], wvec, os.path.join(hb.dir, 'w_%s.vec' % name))
             full = ('consumed=%d of %d' % (len(wvec), len(wvec))) in out
             # exit 10 = the end was reached but an assertion failed on the way: the witness input happens to be a
@@ -483,7 +489,7 @@ def main():
         builds = {}
         plan = []   # (query, build key, kf or None)
         for q in queries:
-            kfs = [k for k in known_all if k['status'] == 'open' and k.get('query') == q['name']]
+            kfs = [k for k in known_all if k['status'] == 'open' and k.get('query') and re.fullmatch(k['query'], q['name'])]
             key = (q['harness'], ())
             builds.setdefault(key, None); plan.append((q, key, None))
             if kfs:
@@ -577,7 +583,7 @@ def conclude(spec, args, results, extra_results, known_all, hbs, seed, wall):
         if r.reach_missing:
             s['verdict'] = 'INCONCLUSIVE'; s['detail'] = 'assertions not reachable: ' + '; '.join(r.reach_missing)
             inconcl.append((q['name'], s['detail'])); samples.append(s); continue
-        open_kfs = [k for k in known_all if k['status'] == 'open' and k.get('query') == q['name']]
+        open_kfs = [k for k in known_all if k['status'] == 'open' and k.get('query') and re.fullmatch(k['query'], q.get('_excl_of') or q['name'])]
         real_fail = []
         for f in r.failed:
             if f['native'] in ('reproduced', 'reproduced-sanitizer', 'reproduced-crash', 'reproduced-other-label', 'skipped'):
@@ -620,8 +626,9 @@ def conclude(spec, args, results, extra_results, known_all, hbs, seed, wall):
     # fixed known findings / stale open ones
     for k in known_all:
         if k['status'] == 'open' and k.get('engine', 'cbmc') == 'cbmc':
-            r = by_name.get(k.get('query'))
-            if r is not None and r.verdict == 'DONE' and k['id'] not in r.known:
+            rs = [x for n_, x in by_name.items() if k.get('query') and re.fullmatch(k['query'], n_)]
+            r = rs[0] if rs else None
+            if r is not None and all(x.verdict == 'DONE' and k['id'] not in x.known for x in rs):
                 log('NOTE: open known finding %s did not occur in this run (query %s) -- entry may be stale' % (k['id'], k.get('query')))
     for er in extra_results:
         evals += er.get('evaluations', 1); obligations += 1
